@@ -7,6 +7,7 @@ status read only under the flag's true edge), wake after flag, constructor pairi
 from core import (bool_branch, enum_branch, variant_edges, is_call_to, root_calls, field_path, mentions,
                   subexprs, fmt, const_of)
 
+WITNESSES = ['W4DonePrivate']
 LEVEL = "proof"
 EXPLANATION = ("Proof by structural obligations over MIR: the flag store is dominated by the status write and "
                "followed by the waker hand-over; poll registers its waker under the waker lock before loading the "
